@@ -31,12 +31,23 @@ class C08(Spec):
     quick = {'runs': 3000, 'wall': 75}
     thorough = {'runs': 600000, 'wall': 900}
     K = 4   # schedules per program
+    rule = ('one evaluation = one simulated run; every generated program (secure integers 70%, finite fields 20%, fixed '
+            'point 10%; with awaits on possibly-completed values, mid-program outputs, barriers, sleeps, per-party delays, '
+            'nested user coroutines) is run under K=4 different seeded schedules with the same inputs and protocol '
+            'randomness; distinct = sha256(configuration, program, tape); non-trivial = m>=2 and bytes exchanged')
 
     def make_case(self, seed, tier):
+        from .families import fldfam, fxpfam
         rng = random.Random(f'C08/{seed // self.K}')
         cfg = sample_cfg(rng, tier, m_min=2)
-        prog = intfam.gen(rng, cfg, tier, effects=True)
-        return {'family': 'int', 'cfg': cfg.to_json(), 'prog': prog, 'seed': seed,
+        r = rng.random()
+        if r < 0.7:
+            fam, prog = 'int', intfam.gen(rng, cfg, tier, effects=True)
+        elif r < 0.9:
+            fam, prog = 'fld', fldfam.gen(rng, cfg, tier, effects=True)
+        else:
+            fam, prog = 'fxp', fxpfam.gen(rng, cfg, tier, effects=True)
+        return {'family': fam, 'cfg': cfg.to_json(), 'prog': prog, 'seed': seed,
                 'rand_seed': seed // self.K,
                 'start_delays': sample_start_delays(random.Random(f'C08d/{seed}'), cfg.m)}
 
@@ -81,6 +92,12 @@ class C11(Spec):
     expected_probes = ('shares_checked', 'shares_value_checked')
 
     def make_case(self, seed, tier):
+        if seed % 4 == 1:
+            from .families import fldfam
+            rng = random.Random(f'C11f/{seed}')
+            cfg = sample_cfg(rng, tier, m_min=2)
+            prog = fldfam.gen(rng, cfg, tier)
+            return {'family': 'fld', 'cfg': cfg.to_json(), 'prog': prog, 'seed': seed}
         return _int_case('C11', seed, tier, effects=(seed % 3 == 0), K=1)
 
     def monitors(self, case):
